@@ -573,6 +573,8 @@ fn run_case(seed: u64, idx: u64, _tier: Tier, out: &mut CaseOut) {
     p.comb_permille = *rng.pick(&[0usize, 40, 120]);
     p.stray_in_table = rng.chance(1, 4);
     p.nested_pre = rng.chance(1, 4);
+    p.stray_in_list = rng.chance(1, 4);
+    p.empty_lists = rng.chance(1, 4);
     p.edge_space = rng.chance(1, 4);
     p.uni_space_permille = *rng.pick(&[0usize, 0, 0, 100]);
     // ids and named anchors add zero-width markers that travel with the text; they
